@@ -98,11 +98,13 @@ class Ctx:
         self.explanation = ""
         self.solver_time = 0.0
         self._replay_n = 0
-        self.known = [
-            json.loads(l)
-            for l in (VERIF / "known_findings.jsonl").read_text().splitlines()
-            if l.strip() and not l.startswith("#")
-        ]
+        files = [VERIF / "known_findings.jsonl"]
+        # development aid only (never set by MANIFEST commands): extra known-finding files
+        files += [Path(p) for p in os.environ.get("VF_EXTRA_KNOWN", "").split(":") if p]
+        self.known = []
+        for f in files:
+            if f.exists():
+                self.known += [json.loads(l) for l in f.read_text().splitlines() if l.strip() and not l.startswith("#")]
 
     # ----- tier helpers
     @property
